@@ -118,6 +118,23 @@ def case_strategy():
 
 
 def run_injection(lib, variant, ck, case):
+  """Outer wrapper: an mju_error raised by any mj_step of the case (settling steps, the judged step, the reference or
+  twin steps) that belongs to a known finding is recorded as such; everything else propagates."""
+  gm, seed, inj, noreset, mode, presteps = case
+  try:
+    _run_injection(lib, variant, ck, case)
+  except mj.MjError as e:
+    if 'rank-deficient' in str(e):
+      ck.violation('mj_step raised mju_error instead of warning+reset: %s' % str(e)[:200],
+                   dict(xml=gm.xml, seed=seed, inj=inj, noreset=noreset, mode=mode, presteps=presteps),
+                   bucket='mju_error-rank-deficient', fingerprint=KNOWN_RANK)
+      ck.case(nontrivial=True, key=('rank', gm.xml, seed, tuple(map(tuple, inj)), noreset, mode, presteps, variant),
+              labels=['variant=' + variant, 'mju_error:rank-deficient'])
+      return
+    raise
+
+
+def _run_injection(lib, variant, ck, case):
   gm, seed, inj, noreset, mode, presteps = case
   E = lib.enums
   M = float(E.mjMAXVAL)
@@ -227,6 +244,12 @@ def run_injection(lib, variant, ck, case):
     try:
       do_step(lib, m, d, mode, between)
     except mj.MjError as e:
+      if noreset and (bp >= 0 or bv >= 0 or sure_force or any(t == 'act' for t, i, vk, n in applied)):
+        # autoreset disabled by the user and a bad value in the state: the engine may refuse the garbage with a
+        # catchable error (e.g. the implicit integrator's LU factorisation); only crashes would be violations
+        ck.case(nontrivial=True, key=('noreset-error', gm.xml, seed, tuple(map(tuple, inj)), mode, presteps, variant),
+                labels=['variant=' + variant, 'autoreset=off', 'noreset:mju_error:' + str(e)[:30]])
+        return
       if 'rank-deficient' in str(e):
         # known finding: the Newton solver raises a fatal mju_error on huge-but-accepted values before mj_checkAcc runs
         ck.violation('mj_step raised mju_error instead of warning+reset: %s' % str(e)[:200],
